@@ -963,7 +963,14 @@ def ac9_connected_copies(fc: FnCls, R: RuleResult) -> int:
             n += 1
             what = "%s = copy of `%s` via .%s().requires_grad_()" % (norm_stmt(enclosing_stmt(c), 70), ast.unparse(e), "().".join(reversed(chain)))
             par = getattr(c, "_parent", None)
-            if isinstance(par, ast.DictComp) or isinstance(par, ast.Dict):
+            keyed_by_tensor = False
+            if isinstance(par, ast.DictComp) and par.value is c:
+                # the key is the tensor (or something computed from it: id(p), p.data_ptr()) iff it mentions the copied variable
+                src_names = {n_.id for n_ in ast.walk(e) if isinstance(n_, ast.Name)}
+                keyed_by_tensor = bool(src_names & {n_.id for n_ in ast.walk(par.key) if isinstance(n_, ast.Name)})
+            elif isinstance(par, ast.Dict):
+                keyed_by_tensor = True
+            if keyed_by_tensor:
                 R.bad(bw, enclosing_stmt(c), "the differentiable copies are collected in a mapping keyed by the tensor: a tensor that occupies two parameter slots "
                       "(passed explicitly and held by the object) gets ONE copy for both slots, so its gradient is the sum returned twice and the per-slot "
                       "gradients are wrong; make one copy per slot", what=what)
